@@ -12,20 +12,25 @@ Ltac dmatch :=
 Lemma exec_m_log st a p m r :
   s_log (exec_m st a p m r) = s_log st \/ exists f, s_log (exec_m st a p m r) = s_log st ++ [f].
 Proof.
-  unfold exec_m, abort. destruct m; dmatch; cbn [s_log set_proc set_store set_task];
+  unfold exec_m, exec_m_gen, abort. destruct m; dmatch; cbn [s_log set_proc set_store set_task];
     try (left; reflexivity); right; eexists; reflexivity.
 Qed.
 
 Lemma step_log st a :
   s_log (step st a) = s_log st \/ exists f, s_log (step st a) = s_log st ++ [f].
 Proof.
-  unfold step. destruct (s_procs st a) as [p|]; [|left; reflexivity].
+  unfold step, step_gen. destruct (s_procs st a) as [p|]; [|left; reflexivity].
   destruct (p_rem p) as [|m r]; [left; reflexivity|]. apply exec_m_log.
 Qed.
 
+Lemma run_nil st : run [] st = st.
+Proof. reflexivity. Qed.
+Lemma run_cons a r st : run (a :: r) st = run r (step st a).
+Proof. reflexivity. Qed.
+
 Lemma run_log sched : forall st, exists fs, s_log (run sched st) = s_log st ++ fs.
 Proof.
-  induction sched as [|a r IH]; intros st; cbn [run].
+  induction sched as [|a r IH]; intros st; rewrite ?run_nil, ?run_cons.
   - exists []. rewrite app_nil_r. reflexivity.
   - destruct (IH (step st a)) as [fs Hfs]. rewrite Hfs.
     destruct (step_log st a) as [E|[f E]]; rewrite E.
@@ -51,15 +56,22 @@ Definition AllQuiet (st : state) : Prop :=
 Lemma exec_m_quiet st a p m r :
   appends m = false -> s_log (exec_m st a p m r) = s_log st.
 Proof.
-  intros H. unfold exec_m, abort. destruct m; try discriminate H; dmatch;
+  intros H. unfold exec_m, exec_m_gen, abort. destruct m; try discriminate H; dmatch;
     cbn [s_log set_proc set_store set_task]; reflexivity.
+Qed.
+
+Lemma quiet_skip r : quiet_prog r = true -> quiet_prog (skip_call r) = true.
+Proof.
+  induction r as [|m r IH]; intros H; [reflexivity|]. cbn [skip_call].
+  destruct (call_start m); [exact H|]. apply IH. cbn [quiet_prog forallb] in H.
+  apply andb_true_iff in H. tauto.
 Qed.
 
 Lemma exec_m_rem st a p m r q :
   s_procs (exec_m st a p m r) a = Some q -> s_procs st a = Some p -> p_rem p = m :: r ->
-  p_rem q = r \/ p_rem q = [] \/ q = p.
+  p_rem q = r \/ p_rem q = skip_call r \/ q = p.
 Proof.
-  intros H Hp Hr. unfold exec_m, abort in H.
+  intros H Hp Hr. unfold exec_m, exec_m_gen, abort in H.
   destruct m; revert H; dmatch; cbn [s_procs set_proc set_store set_task]; unfold upd;
     rewrite ?N.eqb_refl; intros H; try (inversion H; subst; cbn; tauto);
     right; right; congruence.
@@ -68,14 +80,14 @@ Qed.
 Lemma exec_m_others st a p m r b :
   b <> a -> s_procs (exec_m st a p m r) b = s_procs st b.
 Proof.
-  intros Hb. unfold exec_m, abort.
+  intros Hb. unfold exec_m, exec_m_gen, abort.
   destruct m; dmatch; cbn [s_procs set_proc set_store set_task]; unfold upd;
     try reflexivity; destruct (b =? a) eqn:E; try reflexivity; apply N.eqb_eq in E; congruence.
 Qed.
 
 Lemma step_AllQuiet st a : AllQuiet st -> AllQuiet (step st a) /\ s_log (step st a) = s_log st.
 Proof.
-  intros H. unfold step. destruct (s_procs st a) as [p|] eqn:Hp; [|split; [exact H|reflexivity]].
+  intros H. unfold step, step_gen. destruct (s_procs st a) as [p|] eqn:Hp; [|split; [exact H|reflexivity]].
   destruct (p_rem p) as [|m r] eqn:Hr; [split; [exact H|reflexivity]|].
   pose proof (H a p Hp) as Hq. rewrite Hr in Hq. cbn [quiet_prog forallb] in Hq.
   apply andb_true_iff in Hq. destruct Hq as [Hm Hq]. apply negb_true_iff in Hm.
@@ -83,14 +95,14 @@ Proof.
   intros b q Hb. destruct (N.eq_dec b a) as [->|Hne].
   - destruct (exec_m_rem _ _ _ _ _ _ Hb Hp Hr) as [E|[E|E]].
     + rewrite E. exact Hq.
-    + rewrite E. reflexivity.
+    + rewrite E. apply quiet_skip. exact Hq.
     + subst q. apply (H a p Hp).
   - rewrite exec_m_others in Hb by exact Hne. apply (H b q Hb).
 Qed.
 
 Lemma run_AllQuiet sched : forall st, AllQuiet st -> s_log (run sched st) = s_log st.
 Proof.
-  induction sched as [|a r IH]; intros st H; cbn [run]; [reflexivity|].
+  induction sched as [|a r IH]; intros st H; rewrite ?run_nil, ?run_cons; [reflexivity|].
   destruct (step_AllQuiet st a H) as [H1 H2]. rewrite IH by exact H1. exact H2.
 Qed.
 
@@ -147,18 +159,18 @@ Proof. intros H. unfold upd. destruct (x =? k) eqn:E; [apply N.eqb_eq in E; cong
 
 Lemma step_at st a p m r :
   s_procs st a = Some p -> p_rem p = m :: r -> step st a = exec_m st a p m r.
-Proof. intros H1 H2. unfold step. rewrite H1, H2. reflexivity. Qed.
+Proof. intros H1 H2. unfold step, step_gen. rewrite H1, H2. reflexivity. Qed.
 
 Lemma step_done st a : (forall q, s_procs st a = Some q -> p_rem q = []) -> step st a = st.
 Proof.
-  intros H. unfold step. destruct (s_procs st a) as [q|] eqn:E; [|reflexivity].
+  intros H. unfold step, step_gen. destruct (s_procs st a) as [q|] eqn:E; [|reflexivity].
   rewrite (H q eq_refl). reflexivity.
 Qed.
 
 Lemma run_done n : forall st a,
   (forall q, s_procs st a = Some q -> p_rem q = []) -> run (repeat a n) st = st.
 Proof.
-  induction n as [|n IH]; intros st a H; cbn [repeat run]; [reflexivity|].
+  induction n as [|n IH]; intros st a H; cbn [repeat]; rewrite ?run_nil, ?run_cons; [reflexivity|].
   rewrite step_done by exact H. apply IH. exact H.
 Qed.
 
@@ -168,10 +180,11 @@ Proof. reflexivity. Qed.
 (* a write capability on a thread id that does not exist (no frames, no sidecar, no counter)
    appends nothing: load_next_seq_for fails and the call returns before the append *)
 Lemma unknown_thread_append_silent st c t ar rest :
+  skip_call rest = [] ->
   s_mu st = None -> s_next st c = None -> s_side st c = None -> cstream c (s_log st) = [] ->
   s_log (exec (MTarget c :: locked_append t ar ++ rest) st) = s_log st.
 Proof.
-  intros Hmu Hn Hs Hc. unfold exec, locked_append. cbn [app length].
+  intros Hrest Hmu Hn Hs Hc. unfold exec, locked_append. cbn [app length].
   set (prog := MTarget c :: MLock :: MChoose :: MLogAppend t ar :: MSidecar :: MBcast :: MAdvance :: MUnlock :: rest).
   set (st0 := spawn [(prog, 0)] st).
   do 3 rewrite run_repeat_S.
@@ -179,28 +192,25 @@ Proof.
   assert (H3 : (forall q, s_procs s3 0 = Some q -> p_rem q = []) /\ s_log s3 = s_log st).
   { unfold s3.
     assert (H0 : s_procs st0 0 = Some (new_proc prog 0)) by (unfold st0; cbn; apply upd_same).
-    rewrite (step_at st0 0 _ _ _ H0 eq_refl). cbn [exec_m].
+    rewrite (step_at st0 0 _ _ _ H0 eq_refl). unfold exec_m; cbn [exec_m_gen].
     match goal with |- context [step (step ?s 0) 0] => set (st1 := s) end.
     assert (H1 : exists p1, s_procs st1 0 = Some p1 /\ p_rem p1 = MLock :: MChoose :: MLogAppend t ar :: MSidecar :: MBcast :: MAdvance :: MUnlock :: rest
                           /\ p_cid p1 = Some c).
     { eexists. split; [unfold st1; cbn; apply upd_same|]. split; reflexivity. }
     destruct H1 as [p1 [H1 [H1r H1c]]].
-    rewrite (step_at st1 0 _ _ _ H1 H1r). cbn [exec_m].
+    rewrite (step_at st1 0 _ _ _ H1 H1r). unfold exec_m; cbn [exec_m_gen].
     assert (Hmu1 : s_mu st1 = None) by exact Hmu. rewrite Hmu1.
     match goal with |- context [step ?s 0] => set (st2 := s) end.
     assert (H2 : exists p2, s_procs st2 0 = Some p2 /\ p_rem p2 = MChoose :: MLogAppend t ar :: MSidecar :: MBcast :: MAdvance :: MUnlock :: rest
                           /\ p_cid p2 = Some c).
     { eexists. split; [unfold st2; cbn; apply upd_same|]. split; [reflexivity|exact H1c]. }
     destruct H2 as [p2 [H2 [H2r H2c]]].
-    rewrite (step_at st2 0 _ _ _ H2 H2r). cbn [exec_m]. rewrite H2c.
+    rewrite (step_at st2 0 _ _ _ H2 H2r). unfold exec_m; cbn [exec_m_gen]. rewrite H2c.
     assert (Hn2 : s_next st2 c = None) by exact Hn. rewrite Hn2.
     assert (Hl : exists sd, load_next st2 c = (None, sd)).
-    { unfold load_next, replay_events. change (s_side st2 c) with (s_side st c). rewrite Hs. cbn [side_tail try_replay].
-      change (s_log st2) with (s_log st). destruct (validate (s_log st)).
-      - rewrite Hc. cbn. eexists. reflexivity.
-      - eexists. reflexivity. }
+    { unfold load_next. change (s_log st2) with (s_log st). rewrite Hc. cbn. eexists. reflexivity. }
     destruct Hl as [sd Hl]. rewrite Hl. split.
-    - intros q Hq. unfold abort in Hq. cbn in Hq. rewrite upd_same in Hq. inversion Hq. reflexivity.
+    - intros q Hq. unfold abort in Hq. cbn in Hq. rewrite upd_same in Hq. inversion Hq. cbn. exact Hrest.
     - reflexivity. }
   destruct H3 as [H3 H3l]. rewrite (run_done _ s3 0 H3). exact H3l.
 Qed.
